@@ -584,15 +584,18 @@ pub fn drive_arith(t: &mut Tracer, tier: &str, seed: u64) {
     }
     // sums that equal the modulus except in ONE 64-bit limb (m - 2^64, m - 2^128, m - 2^192, reached as x + 0 and (x - 5) + 5): a comparison with the
     // modulus that skips or mis-orders a limb reduces them wrongly; modulo p and modulo N
-    for limb in 1..4usize {
-        let pw = { let mut v = vec![0u8; 32]; v[31 - 8 * limb] = 1; v };
+    for limb in 0..4usize {
+        // (limb 0: the modulus itself -- sums that are exactly m, m - 1, m + 1)
+        let pw = { let mut v = vec![0u8; 32]; if limb > 0 { v[31 - 8 * limb] = 1; } v };
         for (mhex, is_p) in [(P9_HEX, true), (N9_HEX, false)] {
             let m = hexb(mhex);
             // m - 2^(64 limb): subtract the power as big-endian byte strings
             let mut x = m.clone(); let mut borrow = 0i32;
             for i in (0..32).rev() { let d = x[i] as i32 - pw[i] as i32 - borrow; if d < 0 { x[i] = (d + 256) as u8; borrow = 1; } else { x[i] = d as u8; borrow = 0; } }
             let x5 = be_add_small(&x, -5);
-            for (a, b) in [(x.clone(), vec![0u8; 32]), (x5.clone(), be_add_small(&vec![0u8; 32], 5)), (x.clone(), pw.clone())] {
+            let mut pairs = vec![(x5.clone(), be_add_small(&vec![0u8; 32], 5)), (x5.clone(), be_add_small(&vec![0u8; 32], 4)), (x5.clone(), be_add_small(&vec![0u8; 32], 6))];
+            if limb > 0 { pairs.push((x.clone(), vec![0u8; 32])); pairs.push((x.clone(), pw.clone())); }
+            for (a, b) in pairs {
                 if is_p { tower(t, sess(), 1, "add", &a, &b, "limb-below"); if b.iter().all(|z| *z == 0) { tower(t, sess(), 1, "dbl", &a, &b, "limb-below"); tower(t, sess(), 1, "mul", &a, &be_add_small(&vec![0u8; 32], 1), "limb-below"); } }
                 else {
                     let (au, bu) = (u(&a), u(&b));
@@ -661,6 +664,17 @@ pub fn drive_arith(t: &mut Tracer, tier: &str, seed: u64) {
             for f in ["add", "sub", "equals"] { g1op(t, sess(), f, a, b, &zero32, cls); }
         }
         for a in [pa, pj, inf] { g1op(t, sess(), "dbl", &a, &a, &zero32, "unary"); g1op(t, sess(), "neg", &a, &a, &zero32, "unary"); }
+        // DIFFERENT points with the same y: (x, y) and (omega x, y), omega a primitive cube root of unity mod p (y^2 = x^3 + 5 has this automorphism):
+        // an equality test that looks at y only, or an addition that keys on equal y, takes them for the same point
+        {
+            let omega = verif::fp_op("mul", &hexb("0000000000000000f300000002a3a6f2780272354f8b78f4d5fc11967be65333"), &be_add_small(&vec![0u8; 32], 1));
+            let (xb, yb) = (verif::fp_op("mul", &ub(&gm_sm9::fields::fp::mont_mul(&pa.x, &[1, 0, 0, 0])), &be_add_small(&vec![0u8; 32], 1)), ub(&gm_sm9::fields::fp::mont_mul(&pa.y, &[1, 0, 0, 0])));
+            let wx = verif::fp_op("mul", &xb, &omega);
+            let phi = verif::point_from_bytes(&[vec![4u8], wx, yb].concat());
+            for (a, b, cls) in [(pa, phi, "same-y-affine"), (pj, phi, "same-y-jac"), (phi, pj2, "same-y-jac")] {
+                for f in ["equals", "add", "sub"] { g1op(t, sess(), f, &a, &b, &zero32, cls); }
+            }
+        }
         for (j, s) in scalars.iter().enumerate() {
             if thorough || (i + j) % 2 == 0 { g1op(t, sess(), "mul", if j % 2 == 0 { &pa } else { &pj }, &pa, s, "scalar"); }
             if i == 0 { g1op(t, sess(), "gmul", &g1, &g1, s, "scalar"); }
